@@ -153,7 +153,8 @@ func (c *Channel) authenticateSSH(ctx context.Context, p, pp []byte) *result {
 
 // AuthenticateSSH handles "in channel" SSH authentication.
 func (c *Channel) AuthenticateSSH(p, pp []byte) ([]byte, error) {
-	cr := make(chan *result)
+	// buffered so the worker can always deliver its result and exit, even if we already gave up
+	cr := make(chan *result, 1)
 
 	ctx, cancel := context.WithCancel(context.Background())
 
@@ -264,7 +265,8 @@ func (c *Channel) authenticateTelnet(ctx context.Context, u, p []byte) *result {
 
 // AuthenticateTelnet handles "in channel" telnet authentication.
 func (c *Channel) AuthenticateTelnet(u, p []byte) ([]byte, error) {
-	cr := make(chan *result)
+	// buffered so the worker can always deliver its result and exit, even if we already gave up
+	cr := make(chan *result, 1)
 
 	ctx, cancel := context.WithCancel(context.Background())
 
